@@ -126,8 +126,39 @@ class GuardFlow:
             on = op_place(t["on"])
             flag = on["l"] if on is not None and not on["p"] and on["l"] in self.drop_flags() else None
             zero_targets = [tgt for v, tgt in t["targets"] if v == 0]
+            # switch on the discriminant of an Option/Result that may own a guard: on the edge of a
+            # variant that carries no guard (None / Err(BorrowMutError)) the local holds none
+            dexpr = b.expr(t["on"])
+            dlocal = None
+            if dexpr[0] == "discr" and not dexpr[2]["p"] and dexpr[2]["l"] in gl:
+                dlocal = dexpr[2]["l"]
             for tgt, lab in b.succ_edges(bb):
                 s_ = set(before)
+                if dlocal is not None and isinstance(lab, tuple):
+                    ty = b.facts.types[b.locals[dlocal]["ty"]]
+                    v = lab[1]
+                    carries = True
+                    if ty.get("path") == "std::option::Option":
+                        carries = v == 1
+                    elif ty.get("path") == "std::result::Result":
+                        arg = ty["args"][0] if v == 0 else (ty["args"][1] if len(ty["args"]) > 1 else None)
+                        carries = arg is not None and bool(b.facts.owned_guards(arg))
+                    if not carries:
+                        s_.discard(dlocal)
+                if dlocal is not None and lab == "otherwise":
+                    ty = b.facts.types[b.locals[dlocal]["ty"]]
+                    listed = {v for v, _ in t["targets"]}
+                    rest = {0, 1} - listed
+                    if len(rest) == 1:
+                        v = rest.pop()
+                        carries = True
+                        if ty.get("path") == "std::option::Option":
+                            carries = v == 1
+                        elif ty.get("path") == "std::result::Result":
+                            arg = ty["args"][0] if v == 0 else (ty["args"][1] if len(ty["args"]) > 1 else None)
+                            carries = arg is not None and bool(b.facts.owned_guards(arg))
+                        if not carries:
+                            s_.discard(dlocal)
                 if flag is not None and tgt in zero_targets:
                     # flag false: the value guarded by this flag has been moved out
                     for other, _ in b.succ_edges(bb):
@@ -178,6 +209,22 @@ class GuardFlow:
 # ownership of user-typed values (for the DROP class)
 # ------------------------------------------------------------------------------------------
 
+# std types whose drop glue never drops their type arguments
+BORROW_LIKE = {
+    "std::marker::PhantomData",
+    "std::cell::Ref",
+    "std::cell::RefMut",
+    "std::sync::MutexGuard",
+    "std::slice::Iter",
+    "std::slice::IterMut",
+    "std::rc::Weak",
+    "std::sync::Weak",
+    "std::cell::BorrowError",
+    "std::cell::BorrowMutError",
+    "std::mem::ManuallyDrop",
+    "std::task::Context",
+}
+
 USER_ADTS = {
     "async_task::Runnable",
     "async_task::Task",
@@ -214,7 +261,7 @@ def owns_user(facts, tyid, _depth=0, _seen=None):
     if k == "adt":
         if t["path"] in USER_ADTS:
             return t["path"]
-        if t["path"] in ("std::marker::PhantomData",):
+        if t["path"] in BORROW_LIKE:
             return None
         if t.get("local") and t["path"] in facts.adts:
             _seen = _seen or set()
@@ -308,6 +355,23 @@ def classify_drop(body, term):
     return owns_user(body.facts, term["ty"])
 
 
+def drop_category(reason):
+    """coarse category of a DROP reason: dispatcher | param | runnable | waker | error | other"""
+    if reason is None:
+        return None
+    if "EventDispatcher" in reason or "IdleDispatcher" in reason or "CancellableIdle" in reason or "ErasedDispatcher" in reason:
+        return "dispatcher"
+    if reason.startswith("type parameter") or reason.startswith("associated type") or reason == "closure state":
+        return "param"
+    if "Runnable" in reason or "async_task" in reason:
+        return "runnable"
+    if "Waker" in reason:
+        return "waker"
+    if "Error" in reason:
+        return "error"
+    return "other"
+
+
 # ------------------------------------------------------------------------------------------
 # interprocedural: which classes of user code may a local body run (transitively)?
 # ------------------------------------------------------------------------------------------
@@ -334,9 +398,15 @@ class Summaries:
                 if cb is not None and cb.key != key:
                     cal.append((cs.bb, cb.key))
             for bb, t in b.drops():
+                if b.is_cleanup(bb):
+                    continue
                 r = classify_drop(b, t)
                 if r:
-                    d["DROP"].append((bb, "drop %s: %s (%s)" % (place_str(t["pl"]), facts.short_ty(t["ty"]), r)))
+                    cat = drop_category(r)
+                    # a callee's drop of one of *its own* type parameters is a drop of whatever the
+                    # caller instantiated it with; only concrete carriers of user code propagate
+                    cls = "DROP" if cat in ("dispatcher", "runnable") else "DROP-" + cat
+                    d[cls].append((bb, "drop %s: %s (%s)" % (place_str(t["pl"]), facts.short_ty(t["ty"]), r)))
             # drop-and-assign is lowered to Drop + Assign in elaborated MIR; covered above
             self.direct[key] = d
             self.callees[key] = cal
